@@ -191,6 +191,9 @@ func (pg *Page) RenderTemplate(ctx context.Context, sym string, values map[strin
 func (pg *Page) Render(ctx context.Context, sym string, idx uint16) (string, error) {
 	var err error
 
+	// the error prefix belongs to this page only (shown once, also if the page cannot be rendered)
+	defer func() { pg.err = nil }()
+
 	values, err := pg.prepare(ctx, sym, pg.cacheMap, idx)
 	if err != nil {
 		return "", err
